@@ -14,12 +14,14 @@ REPO = os.environ.get("VERIF_REPO", "/repo")
 class Clause:
     """one contract clause = one obligation"""
 
-    def __init__(self, cid, text, props=(), kind=None, char=False, envelope_of=None, note=None):
+    def __init__(self, cid, text, props=(), kind=None, char=False, envelope_of=None, note=None, det=False):
         self.cid, self.text, self.props = cid, text.strip().rstrip(","), tuple(props)
         self.kind = kind          # filled by owner: requires / ensures / invariant / assert
         self.char = char          # characterisation clause (taken from the code, not the statement)
         self.envelope_of = envelope_of  # id of the known finding whose domain this precondition excludes
         self.note = note
+        self.det = det            # A-DET clause: names the (deterministic) result of an exec fn by a spec function; emitted only
+                                  # on assumed stubs, never counted as proved
 
 
 def C(cid, text, *props, **kw):
@@ -34,12 +36,20 @@ class Loop:
         self.invariant_except_break = list(invariant_except_break)
         self.body_entry = body_entry  # proof text injected at loop body entry
         self.body_exit = body_exit    # proof text injected at the end of the loop body
+        for c in self.invariants + self.invariant_except_break:
+            c.kind = "invariant"
+        for c in self.ensures:
+            c.kind = "loop_ensures"
 
 
 class Closure:
     def __init__(self, index, params, ret, requires=(), ensures=(), first_stmt=None):
         self.index, self.params, self.ret = index, params, ret
         self.first_stmt = first_stmt  # e.g. `let (i, x) = p;` when a tuple-pattern parameter had to become a variable
+        for c in requires:
+            c.kind = "closure_requires"
+        for c in ensures:
+            c.kind = "closure_ensures"
         self.requires, self.ensures = list(requires), list(ensures)
 
 
@@ -78,7 +88,7 @@ class Fn:
         return self.key
 
     def clauses(self):
-        out = list(self.requires) + list(self.ensures)
+        out = list(self.requires) + [c for c in self.ensures if not c.det]
         for lp in self.loops:
             out += lp.invariants + lp.ensures + lp.invariant_except_break
         for cl in self.closures:
@@ -303,6 +313,42 @@ def call_paren(toks, i):
         j = k + 1
     return j if toks[j].text == "(" else None
 
+
+def tail_expr_start(toks, bo, body_close):
+    """index of the first token of the tail expression of the block toks[bo..body_close] (None if the block ends in `;`)"""
+    # last depth-0 `;`
+    j, last = bo + 1, bo
+    while j < body_close:
+        t = toks[j]
+        if t.text in OPEN:
+            j = match_close(toks, j) + 1
+            continue
+        if t.text == ";":
+            last = j
+        j += 1
+    k = last + 1
+    while k < body_close:
+        if toks[k].kind == "ident" and toks[k].text in ("if", "for", "while", "loop", "match") or toks[k].text == "{":
+            # skip the block construct (with else chains)
+            m = k
+            while True:
+                # find the block open at depth 0
+                while toks[m].text != "{":
+                    if toks[m].text in ("(", "["):
+                        m = match_close(toks, m)
+                    m += 1
+                m = match_close(toks, m) + 1
+                if m < body_close and toks[m].text == "else":
+                    m += 1
+                    continue
+                break
+            if m >= body_close:
+                return k  # the construct is the tail expression
+            k = m
+            continue
+        return k
+    return None
+
 def recv_start(toks, dot):
     """index of the first token of the postfix-expression that ends right before toks[dot] (a `.`)"""
     j = dot - 1
@@ -370,7 +416,15 @@ def rewrite_ANF_chain(text, last_method, occurrence, nstages, proofs):
     first_dot = stages[0][0]
     start = recv_start(toks, first_dot)
     recv = text[toks[start].start:toks[first_dot].start]
-    out = "{ "
+    # if the chain is the whole initialiser of a `let`, hoist the stage lets in front of it (flat), else wrap in a block
+    flat_at = None
+    if toks[start - 1].text == "=" and toks[end + 1].text == ";":
+        k = start - 2
+        while k > 0 and toks[k].text not in (";", "{", "}"):
+            k -= 1
+        if toks[k + 1].text == "let":
+            flat_at = k + 1
+    out = "" if flat_at is not None else "{ "
     prev = recv
     for si, (d, c) in enumerate(stages):
         call = text[toks[d].start:toks[c].end]
@@ -381,6 +435,8 @@ def rewrite_ANF_chain(text, last_method, occurrence, nstages, proofs):
             out += f"let __cl{si} = {clo}; "
             call = text[toks[d].start:toks[op].end] + f"__cl{si})"
         if si == len(stages) - 1:
+            if flat_at is not None:
+                return (text[:toks[flat_at].start] + out + text[toks[flat_at].start:toks[start].start] + f"{prev}{call}" + text[toks[end].end:])
             out += f"{prev}{call} }}"
         else:
             out += f"let __c{si} = {prev}{call}; "
@@ -412,6 +468,23 @@ def apply_rewrites(text, rewrites):
             text = rewrite_R3_for_each(text, rw[1] if len(rw) > 1 else 0)
         elif rw[0] == "R8":
             text = rewrite_R8_continue(text)
+        elif rw[0] == "MUTSELF":  # R13: `mut self` receiver rebound to a local: fn f(self, ..) { let mut this = self; .. this .. }
+            toks_ = tokenize(text)
+            bo_ = _body_open_index(toks_)
+            ed_ = Edit(text)
+            seen_ = False
+            for k_, t_ in enumerate(toks_):
+                if t_.kind == "ident" and t_.text == "self":
+                    if k_ < bo_:
+                        if toks_[k_ - 1].text == "mut":
+                            ed_.delete(toks_[k_ - 1].start, t_.start)
+                            seen_ = True
+                    else:
+                        ed_.replace(t_.start, t_.end, "this")
+            if not seen_:
+                raise Undecided("R13: no `mut self` receiver")
+            ed_.insert(toks_[bo_].end, " let mut this = self; ")
+            text = ed_.apply()
         elif rw[0] == "RENAME":   # R12: an identifier clashing with a Verus builtin name is renamed throughout the function
             toks_ = tokenize(text)
             ed_ = Edit(text)
@@ -531,7 +604,7 @@ def annotate_fn(f, override_requires=None, canary=False, drop_body=False):
             contract += "    requires\n" + extra
     else:
         contract += _clause_block("requires", req, fid)
-    contract += _clause_block("ensures", f.ensures, fid)
+    contract += _clause_block("ensures", [c for c in f.ensures if not (c.det and f.mode == "prove" and not drop_body)], fid)
     if f.decreases:
         contract += f"    decreases {f.decreases}\n"
     if f.no_unwind:
@@ -647,6 +720,12 @@ def annotate_fn(f, override_requires=None, canary=False, drop_body=False):
             ed.insert(toks[bo].end, "\n" + body + "\n")
         elif w == "end":
             ed.insert(toks[body_close].start, "\n" + body + "\n")
+        elif w == "before_tail":
+            ts = tail_expr_start(toks, bo, body_close)
+            if ts is None:
+                ed.insert(toks[body_close].start, "\n" + body + "\n")
+            else:
+                ed.insert(toks[ts].start, body + "\n")
         elif w[0] == "after_let":
             occ = w[2] if len(w) > 2 else 0
             hits = [i for i in range(bo, body_close) if toks[i].text == "let" and
